@@ -67,6 +67,11 @@ let show = function
   | RUnmod -> "UNMOD"
   | RNoSuch -> "NOSUCH"
 
+let show_can brief = function
+  | CB (b, r) -> "B " ^ hex_of_buf b ^ " " ^ (if brief then hex_of_n r else "-")
+  | CV v -> "V " ^ hex_of_n v
+  | COob -> "OOB" | CUnmod -> "UNMOD"
+
 let kind_of = function
   | "Bswap" -> KBswap | "CpuToLe" -> KCpuToLe | "CpuToBe" -> KCpuToBe
   | "LeToCpu" -> KLeToCpu | "BeToCpu" -> KBeToCpu | _ -> failwith "kind"
@@ -142,6 +147,14 @@ let handle (ext : SS.t list -> SS.t option) line =
              (match p with None -> "-" | Some bb -> hex_of_buf bb)
              (match x with None -> r | Some v -> hex_of_n v)
        | LOob -> "OOB" | LUnmod -> "UNMOD" | LNoSuch -> "NOSUCH")
+  (* ACF-CAN builders: CC full|brief buf id payload plen variant ; CF full|brief buf plen ; CP buf payload plen ; CL buf *)
+  | ["CC"; k; b; id; pl; plen; var] ->
+      show_can (k = "brief") (m_can_create (k = "brief") (buf_of_hex b) (n_of_hex id) (buf_of_hex pl) (n_of_hex plen) (n_of_hex var))
+  | ["SCC"; k; b; id; pl; var] ->
+      show_can (k = "brief") (s_can_create (k = "brief") (buf_of_hex b) (n_of_hex id) (buf_of_hex pl) (n_of_hex var))
+  | ["CF"; k; b; plen] -> show_can (k = "brief") (m_can_finalize (k = "brief") (buf_of_hex b) (n_of_hex plen))
+  | ["CP"; b; pl; plen] -> show_can false (m_can_set_payload (buf_of_hex b) (buf_of_hex pl) (n_of_hex plen))
+  | ["CL"; b] -> show_can false (m_can_payload_length (buf_of_hex b))
   | "Q" :: bufs :: ops -> history false bufs ops
   | "SQ" :: bufs :: ops -> history true bufs ops
   | ["H"; br; k; w; x] -> show (m_helper (br = "BE") (kind_of k) (width_of w) (n_of_hex x))
